@@ -415,8 +415,8 @@ func (s *Server) lookupLeaseByCircuitID(circuitID []byte) *Lease {
 	return lease
 }
 
-// offerHoldTime is how long a lease that has just run out is held for its
-// client when that client sends a new DISCOVER.
+// offerHoldTime is how long a lease that has run out, or is about to, is held
+// for its client when that client sends a new DISCOVER.
 const offerHoldTime = time.Minute
 
 // handleDiscover handles DHCP DISCOVER - allocates new IP
@@ -442,11 +442,11 @@ func (s *Server) handleDiscover(req *dhcpv4.DHCPv4) (*dhcpv4.DHCPv4, error) {
 	var poolID uint32
 	var pool *Pool
 
-	if existingLease != nil && !time.Now().Before(existingLease.ExpiresAt) {
-		// The lease has run out but the cleanup has not removed it yet. Hold it
-		// for the client that is asking again: an offer made from its pool entry
-		// would otherwise be pulled away when the cleanup reclaims the address,
-		// and the address given to the next client.
+	if existingLease != nil && time.Until(existingLease.ExpiresAt) < offerHoldTime {
+		// The lease has run out (and the cleanup has not removed it yet) or is
+		// about to. Hold it for the client that is asking again: an offer made
+		// from it would otherwise be pulled away when the cleanup reclaims the
+		// address, and the address given to the next client.
 		s.leasesMu.Lock()
 		if s.leases[existingLease.MAC.String()] == existingLease {
 			existingLease.ExpiresAt = time.Now().Add(offerHoldTime)
